@@ -197,12 +197,7 @@ impl MinCostFlowSolver {
         let mut cost_overflow_checker: Cost = 0; // computes the maximal cost for the worst
                                                  // feasible flow
 
-        let maximal_formation_count_for_vehicle_type = self
-            .vehicle_types
-            .get(vehicle_type)
-            .unwrap()
-            .maximal_formation_count()
-            .unwrap_or(100) as UpperBound;
+        let mut total_upper_bound: UpperBound = 0; // no arc ever carries more flow than this
 
         let trip_node_count =
             self.network.service_nodes(vehicle_type).count() + self.network.depots_iter().count();
@@ -231,6 +226,7 @@ impl MinCostFlowSolver {
                 * self.config.costs.service_trip as Cost;
 
             total_lower_bound += lower_bound;
+            total_upper_bound += maximal_formation_count;
 
             cost_overflow_checker = cost_overflow_checker
                 .checked_add(cost.checked_mul(maximal_formation_count).unwrap())
@@ -263,6 +259,7 @@ impl MinCostFlowSolver {
                 * self.config.costs.maintenance as Cost;
 
             total_lower_bound += lower_bound;
+            total_upper_bound += lower_bound;
 
             cost_overflow_checker = cost_overflow_checker
                 .checked_add(cost.checked_mul(lower_bound).unwrap())
@@ -327,17 +324,14 @@ impl MinCostFlowSolver {
                     + idle_time_cost;
 
                 cost_overflow_checker = cost_overflow_checker
-                    .checked_add(
-                        cost.checked_mul(maximal_formation_count_for_vehicle_type)
-                            .unwrap(),
-                    )
+                    .checked_add(cost.checked_mul(total_upper_bound).unwrap())
                     .expect("overflow in cost_overflow_checker");
 
                 edges.insert(
                     builder.add_edge(pred_right_rsnode, *left_rsnode),
                     EdgeLabel {
                         lower_bound: 0,
-                        upper_bound: maximal_formation_count_for_vehicle_type,
+                        upper_bound: total_upper_bound,
                         cost,
                     },
                 );
